@@ -14,7 +14,11 @@ Two specifications (spec/settings), each bound to the real code:
                   (a) exhaustive TLC runs of the clauses of the statement; (b) spec -> code: every edge of TLC's graph is
                   executed on real Settings objects with every abstract setting name instantiated by a *class* of real
                   settings and the abstract values by concrete values TLC classified in SettingSchema_cat; plus the sweep:
-                  the round-trip and refusal paths for every real setting x every admitted / refused value x every style;
+                  the round-trip and refusal paths for every real setting x every admitted / refused value x every style
+                  (the nested settings -- cross-section control, tight coupling, cycles, flag lists -- alone in a file with
+                  every admitted value, among them the groups whose fields are falsy but set: "", [], 0, 0.0, False);
+                  every input form of Settings.modified (plain value, Setting object, new key, case title) and of an
+                  assignment (cs[name] = v, Setting.setValue, Setting.value =) is an action or a rotation of one;
                   (c) code -> spec: seeded random histories on real objects, abstracted and validated by SettingsCase_trace.
 
 Expected values always come from TLC (the printed cases and the emitted states); this file builds inputs, runs the real
